@@ -6,11 +6,11 @@ VERIF = os.path.dirname(os.path.abspath(__file__))
 CLAIMED = {
     "C01": ("hist", "seeded search over operation histories (several live worlds, entry points, batching, failing requests, allocation faults) with a stateless reference oracle; minimised replay",
             "3 (C01)"),
-    "C07": ("hist+buggify", "buggify-style seeded skipping of fast paths (hooks S1-S8) on a twin world, placed points along generated slabs/faults/depth surfaces, twin-equality oracle; minimised replay",
+    "C07": ("hist+buggify", "buggify-style seeded skipping of fast paths (hooks S1-S8) on a twin world, placed points along generated slabs/faults/depth surfaces, twin-equality oracle; further lives of the twin pair (destroyed and rebuilt from a sibling file, optionally on a simulated allocator that recycles addresses) asked the predecessors' last points; minimised replay",
             "3 (C07), 2.6"),
-    "C12": ("ctor", "world construction over the simulated file layer: structural mutators on corpus/generated documents, seeded fault plans (torn/corrupted/short/interrupted/failing reads, file changing between the two opens, open failure), allocation faults, raw byte strings, formatting variants; oracle = outcome in {built, std::exception with message} under ASan/UBSan, published-schema/length/version/JSON rules reject, intact file still builds afterwards; minimised replay",
+    "C12": ("ctor", "world construction over the simulated file layer: structural mutators on corpus/generated documents, seeded fault plans (torn/corrupted/short/interrupted/failing reads, file changing between the two opens, open failure), allocation faults, raw byte strings, formatting variants; oracle = outcome in {built, std::exception with message} under ASan/UBSan, published-schema/length/version/JSON rules reject, intact file still builds afterwards; file rewritten between two constructions (simulated stat); concurrent constructions under the seeded scheduler and ThreadSanitizer, including cold starts (the scenario is the first thing a fresh process does); minimised replay",
             "3 (C12)"),
-    "C14": ("sched", "deterministic scheduler (real pthreads parked/released one at a time through raw futexes in an uninstrumented TU, so ThreadSanitizer still sees the races) deciding every switch of 2-32 client threads and of gwb-grid's worker threads at spawn/join/exit/op boundaries and the yield points inside World::properties; oracles: sequential reference, TSan report count, -j N bytes == -j 1 bytes, join-before-write; seeded strategies (random, burst, round robin, PCT, starve-one); minimised replay",
+    "C14": ("sched", "deterministic scheduler (real pthreads parked/released one at a time through raw futexes in an uninstrumented TU, so ThreadSanitizer still sees the races) deciding every switch of 2-32 client threads and of gwb-grid's worker threads at spawn/join/exit/op boundaries the yield points inside World::properties and World::World and, in the ThreadSanitizer build, every n-th control-flow edge of the library (coverage guards turned into seeded preemption points); oracles: sequential reference, TSan report count, -j N bytes == -j 1 bytes, join-before-write; seeded strategies (random, burst, round robin, PCT, starve-one); minimised replay",
             "3 (C14), 2.3"),
     "C15": ("hist", "seeded histories on worlds with hidden RNG state: twins interleaved differently with other worlds, mt19937 engine-state model checked after every operation, validity invariants; minimised replay",
             "3 (C15)"),
